@@ -76,7 +76,8 @@ var DeallocAddr = common.HexToAddress("962cd22a8edf1e4f4e55b4b15ddbfb5d9d541971"
 // ---- the rich tree ---------------------------------------------------------------------------------------------------
 
 type RichOpts struct {
-	Shifted   bool // ShiftedConfig instead of TestChainConfig
+	GasLimit  uint64 // genesis gas limit (default 4712388); raise it for blocks with hundreds of transactions
+	Shifted   bool   // ShiftedConfig instead of TestChainConfig
 	MaxTxs    int  // max transactions per block (default 5)
 	EmptyPct  int  // chance (percent) of an empty block
 	UnclePct  int  // chance (percent) of trying to include uncles
@@ -136,7 +137,12 @@ func NewRichTree(o RichOpts) *RichTree {
 		}
 		alloc[c.Addr] = acc
 	}
-	t.Gspec = &core.Genesis{Config: cfg, Alloc: alloc, GasLimit: 4712388, Difficulty: big.NewInt(131072)}
+	alloc[ProbeAddr] = core.GenesisAccount{Balance: big.NewInt(1), Code: CodeProbe}
+	gl := uint64(4712388)
+	if o.GasLimit != 0 {
+		gl = o.GasLimit
+	}
+	t.Gspec = &core.Genesis{Config: cfg, Alloc: alloc, GasLimit: gl, Difficulty: big.NewInt(131072)}
 	g := t.Gspec.MustCommit(t.gendb)
 	t.Signer = types.NewEIP155Signer(cfg.ChainId)
 	t.Nodes = []*Node{{ID: 0, Parent: -1, Block: g}}
@@ -428,3 +434,89 @@ func (t *Tree) PathIDs(id int) []int {
 
 // UncleCandidates lists the nodes a child of `parent` could include as uncles.
 func (t *RichTree) UncleCandidates(parent int) []int { return t.uncleCandidates(parent) }
+
+// ---- scripted blocks (C01: very large blocks, fork-divergent code at one address) ------------------------------------------
+
+// CodeProbe: a = calldata[0:32]; SSTORE(1, EXTCODESIZE(a)); SSTORE(2, BALANCE(a)); EXTCODECOPY(a, 0, 0, 32); SSTORE(3, MLOAD(0)).
+// It observes another account's code WITHOUT that account's code being loaded by a call.
+var CodeProbe = common.FromHex("600035" + "803b600155" + "8031600255" + "602060006000833c" + "600051600355" + "00")
+
+// ProbeAddr is where RichTree puts CodeProbe in genesis (it is not part of Library(), so random blocks never call it).
+var ProbeAddr = common.BytesToAddress([]byte{0xc1, 0xff})
+
+// AddTxBlock builds one block on `parent` carrying exactly the transactions `build` returns (it is handed the nonce oracle
+// of the block under construction). Contract bookkeeping of the parent is inherited unchanged.
+func (t *RichTree) AddTxBlock(parent int, kind string, build func(nonce func(common.Address) uint64) []*types.Transaction) *Node {
+	p := t.Nodes[parent]
+	id := len(t.Nodes)
+	var txids []int
+	var kinds []string
+	blocks, receipts := core.GenerateChain(context.Background(), t.Cfg, p.Block, aquahash.NewFaker(), t.gendb, 1, func(i int, b *core.BlockGen) {
+		b.SetCoinbase(common.Address{0xc0, byte(id)})
+		b.SetExtra([]byte{byte(id >> 8), byte(id)})
+		for _, tx := range build(b.TxNonce) {
+			b.AddTx(tx)
+			h := tx.Hash()
+			if _, ok := t.txIndex[h]; !ok {
+				t.txIndex[h] = len(t.Txs)
+				t.Txs = append(t.Txs, tx)
+			}
+			txids = append(txids, t.txIndex[h])
+			kinds = append(kinds, kind)
+		}
+	})
+	n := &Node{ID: id, Parent: parent, Block: blocks[0], Receipts: receipts[0], TxIDs: txids}
+	t.Nodes = append(t.Nodes, n)
+	p.Children = append(p.Children, id)
+	t.ByHash[n.Block.Hash()] = id
+	t.Contracts[id] = append([]Contract{}, t.Contracts[parent]...)
+	t.Kinds[id] = kinds
+	return n
+}
+
+// GhostAddr is an address no generator ever funds: a zero-value transfer to it is a no-op after EIP158 (touch + delete).
+func GhostAddr(series byte, i int) common.Address {
+	return common.BytesToAddress([]byte{0xe0 + series, byte(i >> 8), byte(i)})
+}
+
+// Sign signs raw with the i-th funded key.
+func (t *Tree) Sign(raw *types.Transaction, key int) *types.Transaction {
+	tx, err := types.SignTx(raw, t.Signer, t.Keys[key])
+	if err != nil {
+		panic(err)
+	}
+	return tx
+}
+
+// KeyOf returns the index of the funded key that signed tx, or -1.
+func (t *Tree) KeyOf(tx *types.Transaction) int {
+	s, err := types.Sender(t.Signer, tx)
+	if err != nil {
+		return -1
+	}
+	for i, a := range t.Addrs {
+		if a == s {
+			return i
+		}
+	}
+	return -1
+}
+
+// AddBigBlock builds a block of n cheap transactions: zero-value transfers to never-funded addresses (each replaceable by an
+// execution-equivalent one), interleaved round-robin over the funded keys.
+func (t *RichTree) AddBigBlock(r *hx.Rng, parent int, n int) *Node {
+	return t.AddTxBlock(parent, "ghost-touch", func(nonce func(common.Address) uint64) []*types.Transaction {
+		next := map[int]uint64{}
+		var out []*types.Transaction
+		for i := 0; i < n; i++ {
+			k := i % len(t.Keys)
+			if _, ok := next[k]; !ok {
+				next[k] = nonce(t.Addrs[k])
+			}
+			raw := types.NewTransaction(next[k], GhostAddr(0, i), big.NewInt(0), 21000, big.NewInt(int64(1+r.Intn(3))), nil)
+			next[k]++
+			out = append(out, t.Sign(raw, k))
+		}
+		return out
+	})
+}
